@@ -561,6 +561,12 @@ func (gen *Generator) GenerateInclude(args []Sexp) error {
 	if len(args) < 1 {
 		return WrongNargs
 	}
+	if gen.env.sandboxed {
+		// include is a special form, not a function, so leaving it out
+		// of the sandbox function table did not stop it from reading
+		// and evaluating any file.
+		return fmt.Errorf("include is not available in a sandboxed interpreter")
+	}
 
 	var err error
 	var exps []Sexp
